@@ -9,7 +9,7 @@ import z3
 
 from . import ty as T
 from . import ops
-from .ty import INT, BOOL, CHAR, NONE, SLICE, TStr, TList, TTuple, TOpt, TRec, TRef, TSet, TDict, TEnum, Ty
+from .ty import SINK, INT, BOOL, CHAR, NONE, SLICE, TStr, TList, TTuple, TOpt, TRec, TRef, TSet, TDict, TEnum, Ty
 from .dsl import CONTRACTS, SPECS, LEMMAS, Spec, Lemma, Contract
 from .engine import (SDict, V, K, PyObj, STuple, BoundMethod, Unsupported, Stale, State, Obligation, Normalizer,
                      PURE_BUILTINS, PURE_METHODS, MUTATING_METHODS, none_v, mk_int, mk_bool, fresh, seq_arr,
@@ -75,6 +75,8 @@ class FullExecutor(Executor):
         if sd is not None:
             return self.wrap(st, self.sdict_method(st, sd, name, args, kwargs, node), stmt_level)
         t = recv.ty
+        if t == SINK:
+            return self.wrap(st, fresh(SINK, "sink"), stmt_level)
         if isinstance(t, TList):
             r = self.list_method(st, recv, name, args, node)
             if r is not NotImplemented:
@@ -316,10 +318,15 @@ class FullExecutor(Executor):
     # ------------------------------------------------------------------ calling real functions
     def call_function(self, st, fn, args, kwargs, stmt_level=False, node=None, expr_only=False, owner=None):
         fn, kind = unwrap_callable(fn)
+        import io as _io
         if id(fn) in EXTERNAL_ALIASES:
             key = EXTERNAL_ALIASES[id(fn)]
+        elif isinstance(getattr(fn, "__self__", None), _io.IOBase):
+            key = f"io:{fn.__name__}"
         else:
             key = key_of(fn)
+        if key in SINK_FUNCTIONS:
+            return self.wrap(st, fresh(SINK, "sink"), stmt_level)
         c = CONTRACTS.get(key)
         if c is None and owner is not None:
             # an override without its own contract: an *assumed* (external) contract on a base class method is
@@ -495,7 +502,8 @@ class FullExecutor(Executor):
             if stmt_level:
                 if self.feasible(s2):
                     self.havoc_modifies(s2, c, env, node)
-                    outs.append((s2, Outcome("raise", ExcInfo(cls, or_subclass=exc_name.endswith("+"), line=self.cur_line))))
+                    outs.append((s2, Outcome("raise", ExcInfo(cls, or_subclass=exc_name.endswith("+"), line=self.cur_line,
+                                                              value=list(args) if c.kind == "external" else None))))
             else:
                 # expression position: the exceptional case must be impossible here
                 self.emit(st, "no-raise", f"{tag}:{exc_name}", z3.Not(z3.And(*s2.pc[len(st.pc):])) if len(s2.pc) > len(st.pc) else z3.BoolVal(False))
@@ -528,6 +536,7 @@ class FullExecutor(Executor):
                     app = REC_DECLS[fk](*[f.z for f in formals])
                     fb2 = dict(fb)
                     for gname, gty in c.ghost_out.items():
+                        gty = gty[1] if isinstance(gty, tuple) else gty
                         # ghost outputs of a deterministic function are functions of its arguments too
                         gd = z3.Function("ghost_" + T._mangle(c.key) + "_" + gname, *[f.ty.sort() for f in formals], gty.sort())
                         fb2[gname] = V(gty, gd(*[f.z for f in formals]))
@@ -547,6 +556,7 @@ class FullExecutor(Executor):
         if c.ensures is not None:
             b2 = dict(new_env)
             for gname, gty in c.ghost_out.items():
+                gty = gty[1] if isinstance(gty, tuple) else gty
                 b2[gname] = fresh(gty, "ghost_" + gname)   # existentially quantified witness
             b2["result"] = result if result is not None else K(None)
             b2["old"] = PyObj(old_ns)
@@ -1193,6 +1203,7 @@ class FullExecutor(Executor):
 
 
 WITH_HOOKS: dict = {}
+SINK_FUNCTIONS: set = set()      # "module:qualname" of UI functions whose calls are no-ops on the tracked state
 
 
 class OldRef:
